@@ -311,6 +311,89 @@ def case_perpendicular_3d_lattice(ctx):
         ctx.require(f"is_perpendicular-3d-lattice{u}{v}", ctx.iff(ctx.truth(r), expect))
 
 
+def _cdot2(a, b):
+    return a[0] * b[0] + a[1] * b[1]
+
+
+def mk_angle_bisectors(k):
+    """lattice line l, line m through a lattice point with one free real slope parameter (not parallel to l): the two returned lines pass through
+    the vertex, are perpendicular to each other, are (complex multiples of) real lines and make equal angles with l and m"""
+    CONF = [((1, -1, 0), (0, 0)), ((1, 2, -3), (1, 1)), ((0, 1, -2), (3, 2)), ((2, -1, 4), (-1, 2))]
+
+    def case(ctx):
+        from geometer import Line, angle_bisectors
+        lv, (ox, oy) = CONF[k]
+        s_ = ctx.real("s")
+        # m: direction (1, s) through (ox, oy):  s x - y + (oy - s ox) = 0  (k odd: direction (s, 1):  x - s y + (s oy - ox) = 0)
+        mv = [s_, -1, oy - s_ * ox] if k % 2 == 0 else [1, -s_, s_ * oy - ox]
+        ctx.assume(ctx.neg(ctx.is_zero(lv[0] * mv[1] - lv[1] * mv[0])))
+        l, m = Line(np.array(lv, dtype=float)), Line(mk_array(ctx, mv))
+        o = [1.0 * ox, 1.0 * oy, 1.0]
+        bs = angle_bisectors(l, m)
+        ctx.require("angle_bisectors:two-lines", len(bs) == 2)
+        be = [E(b) for b in bs]
+        nl2, nm2 = _cdot2(lv, lv), _cdot2(mv, mv)
+        for i, b in enumerate(be):
+            ctx.require(f"angle_bisectors[{i}]:nonzero", R.nonzero(ctx, b))
+            ctx.require(f"angle_bisectors[{i}]:through-vertex", ctx.is_zero(R.dot(b, o)))
+            # equal angles with l and m:  (b.l)^2 |m|^2 = (b.m)^2 |l|^2  on the normal vectors (homogeneous in b, so a complex multiple does not matter)
+            bl, bm = _cdot2(b, lv), _cdot2(b, mv)
+            ctx.require(f"angle_bisectors[{i}]:equal-angles", ctx.is_zero(bl * bl * nm2 - bm * bm * nl2))
+            # a real line up to a complex factor: b x conj(b) = 0, written on real and imaginary parts
+            re_, im_ = [_re(ctx, x) for x in b], [_im(ctx, x) for x in b]
+            ctx.require(f"angle_bisectors[{i}]:real-line", R.proportional(ctx, re_, im_) if ctx.symbolic else bool(np.allclose(np.cross(re_, im_), 0)))
+        ctx.require("angle_bisectors:mutually-perpendicular", ctx.is_zero(_cdot2(be[0], be[1])))
+        ctx.require("angle_bisectors:distinct", ctx.neg(R.proportional(ctx, be[0], be[1])))
+    return case
+
+
+def _im(ctx, x):
+    if ctx.symbolic:
+        from symgeo.alg import Cx
+        return x.im if isinstance(x, Cx) else 0 * x
+    return np.imag(x)
+
+
+def case_is_coplanar_3d(ctx):
+    """four / five free points of 3-space: is_coplanar iff every 4x4 determinant vanishes"""
+    from geometer import Point, is_coplanar
+    P = [_nz(ctx, vec(ctx, k, 4)) for k in "abcd"]
+    rows = [E(p) for p in P]
+    r = is_coplanar(*[Point(p) for p in P])
+    ctx.require("is_coplanar-3d:iff-det-zero", ctx.iff(ctx.truth(r), ctx.is_zero(R.det(rows))))
+
+
+def mk_angle_bisectors_3d(k):
+    """two lines of 3-space through a lattice point A, directions u (lattice) and v (one free component): both returned lines pass through A,
+    lie in the plane of l and m, are perpendicular and make equal angles with l and m"""
+    CONF = [((0, 0, 0), (1, 0, 0), (None, 1, 0)), ((1, 2, -1), (1, -1, 2), (3, None, 0)), ((10, 10, 10), (1, -1, 0), (1, 1, None))]
+
+    def case(ctx):
+        from geometer import Point, Line, angle_bisectors
+        A, u, v3 = CONF[k]
+        s_ = ctx.real("s")
+        v = [s_ if x is None else x for x in v3]
+        ctx.assume(ctx.neg(R.proportional(ctx, list(u), v)))
+        l = Line(Point(*[float(x) for x in A]), Point(*[float(A[i] + u[i]) for i in range(3)]))
+        m = Line(Point(*[float(x) for x in A]), Point(mk_array(ctx, [A[i] + v[i] for i in range(3)] + [1])))
+        bs = angle_bisectors(l, m)
+        Ah = [float(x) for x in A] + [1.0]
+        uu, vv = sum(x * x for x in u), sum(x * x for x in v)
+        ds = []
+        for i, b in enumerate(bs):
+            M = R.mat(b.array)
+            ctx.require(f"angle_bisectors3d[{i}]:nonzero", R.nonzero(ctx, [x for r in M for x in r]))
+            ctx.require(f"angle_bisectors3d[{i}]:through-vertex", ctx.all([ctx.is_zero(z) for z in R.matvec(M, Ah)]))
+            d = E(b.meet(__import__("geometer").point.infty_plane))
+            ds.append(d)
+            ctx.require(f"angle_bisectors3d[{i}]:direction-at-infinity", ctx.is_zero(d[3]))
+            du, dv = sum(d[j] * u[j] for j in range(3)), sum(d[j] * v[j] for j in range(3))
+            ctx.require(f"angle_bisectors3d[{i}]:equal-angles", ctx.is_zero(du * du * vv - dv * dv * uu))
+            ctx.require(f"angle_bisectors3d[{i}]:in-the-plane-of-l-and-m", ctx.is_zero(R.det([list(u), v, d[:3]])))
+        ctx.require("angle_bisectors3d:mutually-perpendicular", ctx.is_zero(sum(ds[0][j] * ds[1][j] for j in range(3))))
+    return case
+
+
 def cases(tier, seed):
     Q, T = ("quick", "thorough"), ("thorough",)
     cs = []
@@ -333,4 +416,9 @@ def cases(tier, seed):
     for k in range(3):
         add(f"perpendicular_3d_one_free{k}", mk_perpendicular_3d_one_free(k), tiers=Q if k == 0 else ("attempt",), max_paths=2000)
         add(f"line3d_constructions{k}", mk_line3d_constructions(k), tiers=("attempt",), max_paths=2000)
+    for k in range(4):
+        add(f"angle_bisectors_2d_{k}", mk_angle_bisectors(k), tiers=Q, max_paths=2000)
+    for k in range(3):
+        add(f"angle_bisectors_3d_{k}", mk_angle_bisectors_3d(k), tiers=T if k == 0 else ("attempt",), max_paths=2000)
+    add("is_coplanar_3d", case_is_coplanar_3d, tiers=Q, max_paths=2000)
     return cs
